@@ -234,33 +234,19 @@ Proof. split; vm_compute; reflexivity. Qed.
 
 (* ================================================================= D. is the indentation uniform? *)
 (* GraphQL ignores indentation outside block strings; inside a block string only a UNIFORM indentation of
-   the non-empty lines is harmless.  Full statement: every non-empty line gets the same k blanks. *)
+   the non-empty lines is harmless.  Every non-empty line gets the same k blanks. *)
 Definition C02_indent_uniform_full : Prop := forall lines,
   2 <= List.length lines -> Forall (fun l => has NL l = false) lines ->
   Forall (fun l => has SQ l = false) lines ->
   client_embed lines = EvOk (uniform 12 lines) client_suffix.
 
-(* guard: no line made of blanks only (textwrap.indent leaves such a line where it is) — the complement
-   is finding class C02-block-string-blank-line *)
-Theorem C02_indent_uniform_partial : forall lines,
-  2 <= List.length lines -> Forall (fun l => has NL l = false) lines ->
-  Forall (fun l => has SQ l = false) lines -> existsb only_blanks lines = false ->
-  client_embed lines = EvOk (uniform 12 lines) client_suffix.
-Proof.
-  intros lines H2 Hn Hq Hb. rewrite <- embedded_uniform by exact Hb.
-  apply C02_embed_client_without_quote; assumption.
-Qed.
-Print Assumptions C02_indent_uniform_partial.
+(* full strength since 2c2512c (textwrap.indent with the predicate "line is not empty") *)
+Theorem C02_indent_uniform : C02_indent_uniform_full.
+Proof. intros lines H2 Hn Hq. rewrite <- embedded_uniform. apply C02_embed_client_without_quote; assumption. Qed.
+Print Assumptions C02_indent_uniform.
 
-(* a block string whose second line is three blanks: that line stays unindented, the common indentation of
-   the block string swallows its blanks *)
-Theorem C02_indent_uniform_refuted : ~ C02_indent_uniform_full.
-Proof.
-  intro H.
-  specialize (H [L "query A {"; L "  echo(s: """""""; L "  a"; L "     "; L "  b"; L "  """""")"; L "}"]).
-  assert (E : client_embed [L "query A {"; L "  echo(s: """""""; L "  a"; L "     "; L "  b"; L "  """""")"; L "}"]
-              <> EvOk (uniform 12 [L "query A {"; L "  echo(s: """""""; L "  a"; L "     "; L "  b"; L "  """""")"; L "}"])
-                      client_suffix) by (vm_compute; discriminate).
-  apply E, H; [simpl; repeat constructor | repeat constructor | repeat constructor].
-Qed.
-Print Assumptions C02_indent_uniform_refuted.
+(* regression (was C02_indent_uniform_refuted before 2c2512c): a block string whose second line is blanks only *)
+Example C02_regression_blank_line_of_block_string :
+  let lines := [L "query A {"; L "  echo(s: """""""; L "  a"; L "     "; L "  b"; L "  """""")"; L "}"] in
+  client_embed lines = EvOk (uniform 12 lines) client_suffix.
+Proof. vm_compute. reflexivity. Qed.
